@@ -109,6 +109,79 @@ fn check_laws(run: &mut Run, a: &Value, b_: &Value, c: &Value) {
     }
 }
 
+/// what the code's `compare_values(l, r)` answers, read off the public evaluator: `l < r`, `l = r` (else Greater)
+fn compare_values_real(l: &Value, r: &Value) -> Result<Ordering, String> {
+    use sqlgrep::model::{CompareOperator, ExpressionTree};
+    let ev = |op: CompareOperator| {
+        let e = ExpressionTree::Compare { operator: op, left: crate::c03::bx(crate::c03::lit(l.clone())), right: crate::c03::bx(crate::c03::lit(r.clone())) };
+        match crate::exprs::eval_real(&[], &e) {
+            crate::exprs::Ev::Ok(Value::Bool(b)) => Ok(b),
+            other => Err(format!("{} gave {}", e, other.wire())),
+        }
+    };
+    let (lt, eq, gt) = (ev(CompareOperator::LessThan)?, ev(CompareOperator::Equal)?, ev(CompareOperator::GreaterThan)?);
+    match (lt, eq, gt) {
+        (true, false, false) => Ok(Ordering::Less),
+        (false, true, false) => Ok(Ordering::Equal),
+        (false, false, true) => Ok(Ordering::Greater),
+        _ => Err(format!("<, =, > of {} and {} answer {} {} {}", l, r, lt, eq, gt)),
+    }
+}
+
+/// `cmpir`: the ALGORITHM of `compare_int_float` as modelled (`Model/CompareIntFloat.lean`: NaN test, thresholds ±2^63,
+/// trunc, saturating cast, sign of the fraction) against the real `compare_values` on one INT and one REAL, both operand
+/// orders; the oracle demands the exact numeric order (NaN: above every INT, as the code documents)
+fn cmpir(run: &mut Run, i: i64, bits: u64) {
+    let f = f64::from_bits(bits);
+    let (vi, vf) = (Value::Int(i), Value::Float(Float(f)));
+    let desc = format!("int={} real={:#018x} ({:e})", i, bits, f);
+    let (fwd, rev) = match (compare_values_real(&vi, &vf), compare_values_real(&vf, &vi)) {
+        (Ok(a), Ok(b)) => (a, b),
+        (Err(m), _) | (_, Err(m)) => { run.fail(desc, "cmpir-evaluation", m); return; }
+    };
+    let class = if f.is_nan() { "nan" } else if f.is_infinite() { "inf" } else if f.abs() >= 9223372036854775808.0 { "beyond-i64" }
+        else if f.fract() != 0.0 { "fraction" } else if f.abs() > 9007199254740992.0 { "above-2^53" } else { "integral" };
+    run.count(&format!("cmpir:{}", class));
+    run.case(format!("cmpir (int {}) (real {})", i, bits), format!("cmpir algo {} spec {} rev {}", ord(fwd), ord(fwd), ord(rev)),
+        format!("cmpir:{}:{}", class, ord(fwd)));
+    run.oracle_checks += 1;
+    let want = if f.is_nan() { Ordering::Less } else { exact_int_float(i, f) };
+    if fwd != want || rev != want.reverse() {
+        run.fail(desc, "int-real-where-order", format!("compare_values(Int, Float)={:?}, (Float, Int)={:?}; numeric order is {:?}", fwd, rev, want));
+    }
+}
+
+/// INT edges × the REALs around them (the cases where rounding the INT, truncating the REAL, the cast or the sign of the
+/// fraction could go wrong), then random pairs
+fn cmpir_cases(run: &mut Run, rng: &mut Rng, n: usize) {
+    for x in INT_EDGES {
+        let mut floats: Vec<u64> = F64_EDGE_BITS.to_vec();
+        let near = (*x as f64).to_bits();
+        for d in 0..3u64 { floats.push(near.wrapping_add(d)); floats.push(near.wrapping_sub(d)); }
+        // ±2^63 and their neighbours, ±2^53 and neighbours, halves around small integers
+        for c in &[0x43e0000000000000u64, 0xc3e0000000000000, 0x4340000000000000, 0xc340000000000000] {
+            for d in 0..2u64 { floats.push(c.wrapping_add(d)); floats.push(c.wrapping_sub(d)); }
+        }
+        if x.unsigned_abs() < (1u64 << 51) {
+            let xf = *x as f64;
+            for h in &[0.5f64, -0.5, 0.25, -0.75] { floats.push((xf + h).to_bits()); }
+        }
+        for fb in floats { cmpir(run, *x, fb); }
+    }
+    for _ in 0..n {
+        let i = gen_int(rng);
+        let bits = match rng.below(6) {
+            0 => gen_f64_bits(rng),
+            1 => (i as f64).to_bits().wrapping_add(rng.below(5) as u64).wrapping_sub(2),                     // the neighbours of `i as f64`
+            2 => ((i as f64) + (rng.range(-4, 4) as f64) * 0.25).to_bits(),                           // quarters around i
+            3 => { let e = 1023 + rng.below(70) as u64; (rng.next() & 0x800fffffffffffff) | (e << 52) }      // magnitudes 1 .. 2^69
+            4 => { let e = 1023 + 50 + rng.below(16) as u64; (rng.next() & 0x800fffffffffffff) | (e << 52) } // 2^50 .. 2^65: ulp from 1/4 to 8192
+            _ => rng.next(),
+        };
+        cmpir(run, i, bits);
+    }
+}
+
 fn emit(run: &mut Run, a: &Value, b_: &Value, c: &Value) {
     let line = format!("cmp3 {} {} {}", value_sexp(a), value_sexp(b_), value_sexp(c));
     let answer = format!(
@@ -158,6 +231,8 @@ pub fn run(p: &Params) -> Run {
     // the comparison used by WHERE / IN for an INT with a REAL (numbers compare by numeric value)
     let env = crate::c03::gen_env(&mut rng);
     crate::c03::boundary_cases(&mut run, &env, p.tier_thorough);
+    // the same comparison, algorithm against code: INT edges x neighbouring REALs, then random pairs
+    cmpir_cases(&mut run, &mut rng, p.n(1500, 60_000));
     // array_unique (named in the sentence): unique by the one order, also for NaN / -0.0 / NULL elements
     crate::c03::array_unique_cases(&mut run, &mut rng, p.n(600, 20_000));
     let n = p.n(4000, 200_000);
